@@ -13,6 +13,7 @@ import GeoModel.Winding
 import GeoProofs.Lemmas.C05Area
 import GeoProofs.Lemmas.C05Winding
 import GeoProofs.Lemmas.C05PConvex
+import GeoProofs.Lemmas.C05PRotate
 import Mathlib.Tactic.NormNum
 
 namespace Geo.Proofs.C05
@@ -878,20 +879,24 @@ example : PivotOnce [⟨1, 0⟩, ⟨2, 2⟩, ⟨0, 1⟩, ⟨1, 0⟩] :=
     rcases hq with rfl | rfl | rfl | rfl <;> simp [lexLt],
    Or.inl ⟨[⟨1, 0⟩, ⟨2, 2⟩], [⟨1, 0⟩], rfl, by simp, by simp⟩⟩
 
-private theorem toWinding_not_flip {w : WO} {r : List Pt} (h : PivotOnce r) :
+private theorem toWinding_not_flip' {w : WO} {r : List Pt}
+    (h : windingOrder r.reverse = (windingOrder r).map WO.flip) :
     windingOrder (toWinding w r) ≠ some (WO.flip w) := by
   cases w
   · -- want cw: result must not be ccw
     simp only [toWinding, makeCw, WO.flip]
     split
     · rename_i hw
-      rw [windingOrder_reverse' h, hw]; simp [WO.flip]
+      rw [h, hw]; simp [WO.flip]
     · assumption
   · simp only [toWinding, makeCcw, WO.flip]
     split
     · rename_i hw
-      rw [windingOrder_reverse' h, hw]; simp [WO.flip]
+      rw [h, hw]; simp [WO.flip]
     · assumption
+
+private theorem toWinding_not_flip {w : WO} {r : List Pt} (h : PivotOnce r) :
+    windingOrder (toWinding w r) ≠ some (WO.flip w) := toWinding_not_flip' (windingOrder_reverse' h)
 
 private theorem toWinding_of_not_flip {w : WO} {r : List Pt} (h : windingOrder r ≠ some (WO.flip w)) :
     toWinding w r = r := by
@@ -902,6 +907,40 @@ private theorem close_toWinding_eq (w : WO) (r : List Pt) (h : SM.isClosed r = t
   rcases toWinding_cases w r with e | e <;> rw [e]
   · simp [SM.close, h]
   · simp [SM.close, closed_reverse h]
+
+/-- what `orient_post` and `orient_idem` need of each ring: reversal flips its winding order -/
+private theorem orient_post_of_rev (d : Direction) (p : Poly) (he : SM.isClosed p.ext = true)
+    (hi : ∀ h ∈ p.ints, SM.isClosed h = true)
+    (pe : windingOrder p.ext.reverse = (windingOrder p.ext).map WO.flip)
+    (pi : ∀ h ∈ p.ints, windingOrder h.reverse = (windingOrder h).map WO.flip) :
+    windingOrder (orientPoly d p).ext ≠ some (WO.flip d.extW) ∧
+      ∀ h ∈ (orientPoly d p).ints, windingOrder h ≠ some (WO.flip d.intW) := by
+  constructor
+  · show windingOrder (SM.close (toWinding d.extW p.ext)) ≠ _
+    rw [close_toWinding_eq _ _ he]; exact toWinding_not_flip' pe
+  · intro h hh
+    simp only [orientPoly, List.map_map, List.mem_map, Function.comp] at hh
+    obtain ⟨a, ha, rfl⟩ := hh
+    rw [close_toWinding_eq _ _ (hi a ha)]; exact toWinding_not_flip' (pi a ha)
+
+private theorem orient_idem_of_rev (d : Direction) (p : Poly) (he : SM.isClosed p.ext = true)
+    (hi : ∀ h ∈ p.ints, SM.isClosed h = true)
+    (pe : windingOrder p.ext.reverse = (windingOrder p.ext).map WO.flip)
+    (pi : ∀ h ∈ p.ints, windingOrder h.reverse = (windingOrder h).map WO.flip) :
+    orientPoly d (orientPoly d p) = orientPoly d p := by
+  have hstep : ∀ (w : WO) (r : List Pt), SM.isClosed r = true →
+      windingOrder r.reverse = (windingOrder r).map WO.flip →
+      SM.close (toWinding w (SM.close (toWinding w r))) = SM.close (toWinding w r) := by
+    intro w r hc hp
+    rw [close_toWinding_eq w r hc, toWinding_of_not_flip (toWinding_not_flip' hp)]
+    exact close_toWinding_eq w r hc
+  show Poly.mk _ _ = Poly.mk _ _
+  congr 1
+  · exact hstep _ _ he pe
+  · simp only [orientPoly, List.map_map]
+    apply List.map_congr_left
+    intro a ha
+    exact hstep _ _ (hi a ha) (pi a ha)
 
 /-- [Tp] `orient_post`: the exterior of the result does not have the winding opposite to the
 requested one, and no hole has the winding opposite to the one requested for holes. -/
@@ -933,5 +972,114 @@ theorem orient_idem_partial (d : Direction) (p : Poly) (he : SM.isClosed p.ext =
     apply List.map_congr_left
     intro a ha
     exact hstep _ _ (hi a ha) (pi a ha)
+
+/-! ### Start vertex of a ring
+
+Full statement (false in general, for the same reason as reversal: a ring that passes through its
+least point twice has two candidate pivots and `least_index` takes the first in list order, which
+depends on the start vertex — see the pinched ring below):
+  windingOrder_rotate : r.head? = r.getLast? → windingOrder (rotate1 r) = windingOrder r -/
+
+/-- [Tp] `windingOrder_rotate`: moving the start vertex of a closed ring by any number of steps
+does not change `winding_order`, when the least point is visited once (`PivotOnce`; preserved by
+rotation, as is closedness). -/
+theorem windingOrder_rotate_partial (k : Nat) (r : List Pt) (hc : r.head? = r.getLast?)
+    (h : PivotOnce r) :
+    windingOrder (rotateN k r) = windingOrder r ∧ PivotOnce (rotateN k r) ∧
+      (rotateN k r).head? = (rotateN k r).getLast? := windingOrder_rotateN k hc h
+
+example : rotateN 2 [⟨1, 0⟩, ⟨2, 2⟩, ⟨0, 1⟩, ⟨1, 0⟩] = [⟨0, 1⟩, ⟨1, 0⟩, ⟨2, 2⟩, ⟨0, 1⟩] := by decide
+
+/-- witness that `PivotOnce` cannot be dropped: a ring pinched at its least point `(0,0)`, one lobe
+counter-clockwise, the other clockwise; the reported winding depends on the start vertex -/
+theorem windingOrder_rotate_pinched_witness :
+    let r : List Pt := [⟨0, 0⟩, ⟨2, 1⟩, ⟨2, 2⟩, ⟨0, 0⟩, ⟨1, 3⟩, ⟨2, 3⟩, ⟨0, 0⟩]
+    windingOrder r = some .ccw ∧ windingOrder (rotate1 r) = some .cw := by
+  decide +kernel
+
+/-! ### Convex rings: reversal, `orient` without `PivotOnce`
+
+A convex ring may visit its least point several times in a row (repeated coordinates) — `PivotOnce`
+fails for it — but its winding order is the sign of its area, and the area is negated by reversal. -/
+
+/-- [T] reversing a convex ring flips `winding_order` (and keeps `None`). -/
+theorem windingOrder_reverse_convex (r : List Pt) (h : convexRing r) :
+    windingOrder r.reverse = (windingOrder r).map WO.flip := by
+  obtain ⟨a1, a2, a3⟩ := windingOrder_eq_sign_area_convex r h
+  obtain ⟨b1, b2, b3⟩ := windingOrder_eq_sign_area_convex r.reverse (convexRing_reverse h)
+  rw [ringArea_reverse] at b1 b2 b3
+  rcases lt_trichotomy (twiceSignedRingArea r) 0 with hlt | heq | hgt
+  · rw [a2.2 hlt, b1.2 (by linarith)]; rfl
+  · rw [a3.2 heq, b3.2 (by linarith)]; rfl
+  · rw [a1.2 hgt, b2.2 (by linarith)]; rfl
+
+/-- [T] `orient_post` for polygons with convex rings. -/
+theorem orient_post_convex (d : Direction) (p : Poly) (he : SM.isClosed p.ext = true)
+    (hi : ∀ h ∈ p.ints, SM.isClosed h = true) (ce : convexRing p.ext) (ci : ∀ h ∈ p.ints, convexRing h) :
+    windingOrder (orientPoly d p).ext ≠ some (WO.flip d.extW) ∧
+      ∀ h ∈ (orientPoly d p).ints, windingOrder h ≠ some (WO.flip d.intW) :=
+  orient_post_of_rev d p he hi (windingOrder_reverse_convex _ ce)
+    (fun h hh => windingOrder_reverse_convex _ (ci h hh))
+
+/-- [T] `orient_idem` for polygons with convex rings, without `PivotOnce`. -/
+theorem orient_idem_convex (d : Direction) (p : Poly) (he : SM.isClosed p.ext = true)
+    (hi : ∀ h ∈ p.ints, SM.isClosed h = true) (ce : convexRing p.ext) (ci : ∀ h ∈ p.ints, convexRing h) :
+    orientPoly d (orientPoly d p) = orientPoly d p :=
+  orient_idem_of_rev d p he hi (windingOrder_reverse_convex _ ce)
+    (fun h hh => windingOrder_reverse_convex _ (ci h hh))
+
+/-- [T] every triangle ring is convex — so `windingOrder_eq_sign_area_convex` contains the triangle
+case without the distinctness hypotheses of `windingOrder_eq_sign_area_triangle_partial`. -/
+theorem convexRing_triangle (a b c : Pt) : convexRing [a, b, c, a] := by
+  have key : ∀ e ∈ edges [a, b, c, a], ∀ q ∈ [a, b, c, a],
+      cross e.1 e.2 q = cross a b c ∨ cross e.1 e.2 q = 0 := by
+    intro e he q hq
+    simp only [edges, List.tail_cons, List.zip_cons_cons, List.zip_nil_right, List.mem_cons,
+      List.not_mem_nil, or_false] at he hq
+    rcases he with rfl | rfl | rfl <;> rcases hq with rfl | rfl | rfl | rfl <;>
+      (first | (left; rfl) | (right; simp only [cross]; ring1) | (left; simp only [cross]; ring1))
+  rcases le_total 0 (cross a b c) with h | h
+  · left
+    intro e he q hq
+    rcases key e he q hq with h' | h'
+    · rw [h']; exact h
+    · rw [h']
+  · right
+    intro e he q hq
+    rcases key e he q hq with h' | h'
+    · rw [h']; exact h
+    · rw [h']
+
+/-- [T] winding order = sign of the area for *every* triangle ring (degenerate ones included). -/
+theorem windingOrder_eq_sign_area_triangle (a b c : Pt) :
+    (windingOrder [a, b, c, a] = some .ccw ↔ 0 < twiceSignedRingArea [a, b, c, a]) ∧
+    (windingOrder [a, b, c, a] = some .cw ↔ twiceSignedRingArea [a, b, c, a] < 0) ∧
+    (windingOrder [a, b, c, a] = none ↔ twiceSignedRingArea [a, b, c, a] = 0) :=
+  windingOrder_eq_sign_area_convex _ (convexRing_triangle a b c)
+
+/-- [T] the polygon form of every `Rect` is a convex ring. -/
+theorem convexRing_rect (mn mx : Pt) : convexRing (rectToPoly mn mx).ext := by
+  have key : ∀ e ∈ edges (rectToPoly mn mx).ext, ∀ q ∈ (rectToPoly mn mx).ext,
+      cross e.1 e.2 q = (mx.x - mn.x) * (mx.y - mn.y) ∨ cross e.1 e.2 q = 0 := by
+    intro e he q hq
+    simp only [rectToPoly, edges, List.tail_cons, List.zip_cons_cons, List.zip_nil_right,
+      List.mem_cons, List.not_mem_nil, or_false] at he hq
+    rcases he with rfl | rfl | rfl | rfl <;> rcases hq with rfl | rfl | rfl | rfl | rfl <;>
+      (first | (right; simp only [cross]; ring1) | (left; simp only [cross]; ring1))
+  rcases le_total 0 ((mx.x - mn.x) * (mx.y - mn.y)) with h | h
+  · left
+    intro e he q hq
+    rcases key e he q hq with h' | h'
+    · rw [h']; exact h
+    · rw [h']
+  · right
+    intro e he q hq
+    rcases key e he q hq with h' | h'
+    · rw [h']; exact h
+    · rw [h']
+
+example : orientPoly .default (orientPoly .default (rectToPoly ⟨0, 0⟩ ⟨3, 2⟩)) =
+    orientPoly .default (rectToPoly ⟨0, 0⟩ ⟨3, 2⟩) :=
+  orient_idem_convex _ _ (by decide) (by decide) (convexRing_rect _ _) (by simp [rectToPoly])
 
 end Geo.Proofs.C05
